@@ -194,7 +194,7 @@ theorem fwdLine_step (o : Opt) (ls : List Bytes) (i : Nat) (line : Bytes) (tl : 
 
 /-- the read loop prints exactly what remains -/
 theorem fwdLines_eq (o : Opt) (ls : List Bytes)
-    (hutf : o.eol = .newline → ∀ l ∈ ls, validUtf8 l = true) :
+    (hutf : ∀ l ∈ ls, validUtf8 l = true) :
     ∀ (ls' : List Bytes) (i : Nat) (rest : List UserBounds) (addNl : Bool),
       ls.drop i = ls' → FwdGood ls rest → FwdInv ls i addNl rest →
       fwdLines o ls' (i : Int) (rest.map .bound) addNl
@@ -236,10 +236,7 @@ theorem fwdLines_eq (o : Opt) (ls : List Bytes)
     have hmem : line ∈ ls := by
       have : line ∈ ls.drop i := by rw [hd]; simp
       exact List.mem_of_mem_drop this
-    have hv : (decide (o.eol = EOL.newline) && !validUtf8 line) = false := by
-      by_cases he : o.eol = .newline
-      · simp [hutf he line hmem]
-      · simp [he]
+    have hv : (!validUtf8 line) = false := by simp [hutf line hmem]
     rw [hv]
     simp only [Bool.false_eq_true, if_false]
     obtain ⟨w, rest', a', hf, hg', hinv', hrem⟩ := fwdLine_step o ls i line tl hd rest addNl hg hinv
@@ -274,13 +271,13 @@ theorem good_of_forwardOnly (ls : List Bytes) (bs : List UserBounds)
 /-- **The one-line-at-a-time algorithm prints exactly the selected lines** — byte for byte, in
     request order, separated by the EOL (or concatenated under `--no-join`), followed by one EOL —
     and succeeds.  For every input (the hypothesis on the bounds is void for the empty one), every
-    plain forward-only request resolvable on it; in LF mode the lines must be UTF-8
-    (`read_line`), with `-z` they are arbitrary bytes. -/
+    plain forward-only request resolvable on it; the lines must be UTF-8 (the line reader checks
+    each line it reads, with either EOL). -/
 theorem fwd_output (o : Opt) (input : Bytes) (bs : List UserBounds)
     (hplain : o.bounds.list = bs.map .bound)
     (hfwd : isForwardOnly o.bounds.list = true)
     (hres : ∀ b ∈ bs, resolve b (records o.eol.byte input).length ≠ none)
-    (hutf : o.eol = .newline → ∀ l ∈ records o.eol.byte input, validUtf8 l = true) :
+    (hutf : ∀ l ∈ records o.eol.byte input, validUtf8 l = true) :
     cutLinesForwardOnly o input
       = Run.ok (linesOut o.eol.byte o.join (records o.eol.byte input) bs ++ [o.eol.byte]) := by
   unfold cutLinesForwardOnly
@@ -310,7 +307,7 @@ theorem fwd_eq_spec (o : Opt) (input : Bytes) (bs : List UserBounds)
     (hplain : o.bounds.list = bs.map .bound)
     (hfwd : isForwardOnly o.bounds.list = true)
     (hres : ∀ b ∈ bs, resolve b (records o.eol.byte input).length ≠ none)
-    (hutf : o.eol = .newline → ∀ l ∈ records o.eol.byte input, validUtf8 l = true)
+    (hutf : ∀ l ∈ records o.eol.byte input, validUtf8 l = true)
     (h0 : input ≠ []) (h1 : input ≠ [o.eol.byte])
     (hc : o.complement = false) :
     cutLinesForwardOnly o input = specLines (cfgOf o) input := by
@@ -323,7 +320,7 @@ theorem readAndCutLines_eq_spec (o : Opt) (input : Bytes) (bs : List UserBounds)
     (hplain : o.bounds.list = bs.map .bound)
     (hfwd : isForwardOnly o.bounds.list = true)
     (hres : ∀ b ∈ bs, resolve b (records o.eol.byte input).length ≠ none)
-    (hutf : o.eol = .newline → ∀ l ∈ records o.eol.byte input, validUtf8 l = true)
+    (hutf : ∀ l ∈ records o.eol.byte input, validUtf8 l = true)
     (h0 : input ≠ []) (h1 : input ≠ [o.eol.byte])
     (hc : o.complement = false) (hp : o.compressDelimiter = false) :
     readAndCutLines o input = specLines (cfgOf o) input := by
@@ -412,7 +409,7 @@ theorem fwd_no_join (o : Opt) (input : Bytes) (bs : List UserBounds)
     (hplain : o.bounds.list = bs.map .bound)
     (hfwd : isForwardOnly o.bounds.list = true)
     (hres : ∀ b ∈ bs, resolve b (records o.eol.byte input).length ≠ none)
-    (hutf : o.eol = .newline → ∀ l ∈ records o.eol.byte input, validUtf8 l = true)
+    (hutf : ∀ l ∈ records o.eol.byte input, validUtf8 l = true)
     (hj : o.join = false) :
     cutLinesForwardOnly o input
       = Run.ok (bs.flatMap (selText o.eol.byte (records o.eol.byte input)) ++ [o.eol.byte]) := by
@@ -423,7 +420,7 @@ theorem fwd_join (o : Opt) (input : Bytes) (bs : List UserBounds)
     (hplain : o.bounds.list = bs.map .bound)
     (hfwd : isForwardOnly o.bounds.list = true)
     (hres : ∀ b ∈ bs, resolve b (records o.eol.byte input).length ≠ none)
-    (hutf : o.eol = .newline → ∀ l ∈ records o.eol.byte input, validUtf8 l = true)
+    (hutf : ∀ l ∈ records o.eol.byte input, validUtf8 l = true)
     (hj : o.join = true) :
     cutLinesForwardOnly o input
       = Run.ok (List.intercalate [o.eol.byte]
